@@ -130,6 +130,8 @@ def build_kwargs(inst, G):
         n, d = inst["covlen"]
         kw["subpath_constraints_coverage_length"] = n / d
         kw["length_attr"] = "length"
+    if inst.get("lenattr"):
+        kw["length_attr"] = "length"          # lengths (elen / nlen) are meant to be used (path-length factors, ...)
     if "ign" in inst:
         kw["elements_to_ignore"] = [elem(e) for e in inst["ign"]]
     if "starts" in inst:
